@@ -22,7 +22,7 @@ pub fn spec() -> Spec {
                Non-trivial = a fit with more samples than coefficients (circle: >= 6 points); distinct = hash of the data bits.",
         assumptions: &[
             "tolerances carry the condition number of the weighted Gram matrix computed by the oracle (SVD); cases with cond > 1e6 are skipped and counted; the bound is 1e6*u*cond (the library inverts the Gram matrix)",
-            "circle fit, arbitrary data: |J^T r| <= 1e-4 |J||r| + 1e3 u (r+offset) sqrt(n) (the solver stops on a relative objective reduction of 30 eps, which bounds the gradient ratio by about 1e-6 times the conditioning of the arc); Gaussian mode judged on exact samples only",
+            "circle fit, arbitrary data: |J^T r| <= 1e-4 |J||r| + 1e3 u (r+offset) sqrt(n) (the solver stops on a relative objective reduction of 30 eps, which bounds the gradient ratio by about 1e-6 times the conditioning of the arc); Gaussian mode judged on exact samples only, 8 points or more",
             "three-point circle: tolerance 1e3*u*(offset^2+size^2)/(size*sin(min angle)) + 1e-9*r (the library squares absolute coordinates)",
         ],
         streams: vec![
@@ -299,7 +299,9 @@ fn run_circle(c: &mut Ctx) {
     // a handful of points with two of them (almost) on top of each other — the first and the last of
     // a full turn — determine the circle only as well as their separation allows
     let min_sep = (0..pts.len()).flat_map(|i| (i + 1..pts.len()).map(move |j| (i, j))).map(|(i, j)| (pts[i] - pts[j]).norm()).fold(f64::INFINITY, f64::min);
-    if !noisy && n <= 5 && min_sep < 0.1 * rad {
+    // (Gaussian mode discards points by the spread of the residuals at the current estimate: with
+    // fewer than 8 points that statistic is meaningless and fewer than three points may survive)
+    if (!noisy && n <= 5 && min_sep < 0.1 * rad) || (gaussian && n < 8) {
         c.skip("Circle2::fitting_circle :: exact samples recover the circle");
     } else if !noisy {
         let err = ((fit.center - ctr).norm()).max((fit.r() - rad).abs());
